@@ -275,7 +275,7 @@ impl FormatSpec {
     pub fn parse(text: &str) -> Result<Self, FormatSpecError> {
         // get_integer in CPython
         let (conversion, text) = FormatConversion::parse(text);
-        let (mut fill, mut align, text) = parse_fill_and_align(text);
+        let (mut fill, align, text) = parse_fill_and_align(text);
         let (sign, text) = FormatSign::parse(text);
         let (alternate_form, text) = parse_alternate_form(text);
         let (zero, text) = parse_zero(text);
@@ -287,9 +287,10 @@ impl FormatSpec {
             return Err(FormatSpecError::InvalidFormatSpecifier);
         }
 
+        // The '0' flag fills with zeros; without an explicit alignment numbers then pad after the sign
+        // while other values keep their default alignment (see format_sign_and_align).
         if zero && fill.is_none() {
             fill.replace('0');
-            align = align.or(Some(FormatAlign::AfterSign));
         }
 
         Ok(FormatSpec {
@@ -407,8 +408,8 @@ impl FormatSpec {
                 let magnitude_len = magnitude_str.len();
                 // Only zero padding ('0' fill with '=' alignment) extends the digits up to the width;
                 // any other fill is added around the grouped number.
-                let zero_padded =
-                    self.fill == Some('0') && self.align == Some(FormatAlign::AfterSign);
+                let zero_padded = self.fill == Some('0')
+                    && matches!(self.align, Some(FormatAlign::AfterSign) | None);
                 let width = if zero_padded {
                     self.width.unwrap_or(magnitude_len) as i32 - prefix.len() as i32
                 } else {
@@ -633,7 +634,14 @@ impl FormatSpec {
     where
         T: CharLen + Deref<Target = str>,
     {
-        let align = self.align.unwrap_or(default_align);
+        let align = self.align.unwrap_or(
+            if self.fill == Some('0') && default_align == FormatAlign::Right {
+                // zero padding of a number goes between the sign and the digits
+                FormatAlign::AfterSign
+            } else {
+                default_align
+            },
+        );
 
         let num_chars = magnitude_str.char_len();
         let fill_char = self.fill.unwrap_or(' ');
